@@ -153,6 +153,7 @@ class Tracer:
         self.internal = 0          # >0 while the harness itself uses os.* (never counted, never faulted)
         self.reads = 0             # stat-class calls issued by the code under test
         self.read_log = []         # (kind, model path) of each of them, when plan["log_reads"]
+        self.interrupted = False
         self.on_crash = None
         self.gate = None           # (req_w, ack_r): block before every call until the scheduler grants a step
         self.yields = 0
@@ -205,9 +206,15 @@ class Tracer:
         if dir_fd is not None and not p.startswith(b"/"):
             base = os.fsencode(os.readlink("/proc/self/fd/%d" % dir_fd))
             p = base + b"/" + p
-        p = os.path.abspath(p)
-        d, b = os.path.split(p)
-        return os.path.join(os.path.realpath(d), b) if b else os.path.realpath(d)
+        if not p.startswith(b"/"):
+            p = os.path.join(os.getcwdb(), p)
+        # physical resolution as the kernel does it: a symbolic link is followed BEFORE a '..' after it is applied
+        # (os.path.abspath would collapse "link/.." textually and name another entry)
+        q = p.rstrip(b"/") or b"/"
+        d, b = os.path.split(q)
+        if b in (b"", b".", b".."):
+            return os.path.realpath(q)
+        return os.path.join(os.path.realpath(d), b)
 
     def model(self, real):
         return self.sb.to_model(real)
@@ -457,6 +464,23 @@ class Tracer:
         def scandir(path="."):
             return SortedScandir(path)
 
+        def interruptible(f):
+            """plan["interrupt_after"] = k: a keyboard interrupt (SIGINT, Ctrl-C) is delivered right after mutating call k
+            has returned - unlike a kill, the interpreter unwinds and runs the handlers on the way out"""
+            def g(*a, **kw):
+                before_n = t.count
+                r = f(*a, **kw)
+                if t.plan.get("interrupt_after") is not None and before_n <= t.plan["interrupt_after"] < t.count \
+                        and not t.interrupted:
+                    t.interrupted = True
+                    raise KeyboardInterrupt()
+                return r
+            return g
+        if t.plan.get("interrupt_after") is not None:
+            # (only calls the program makes from Python code: open/write/close are issued from inside io objects, where an
+            #  exception raised by the stand-in would corrupt the object's state - a real signal handler never runs there)
+            mkdir, rename, unlink, rmdir, symlink, chmod, utime, link, truncate = [
+                interruptible(f_) for f_ in (mkdir, rename, unlink, rmdir, symlink, chmod, utime, link, truncate)]
         os.mkdir, os.rename, os.replace, os.unlink, os.remove, os.rmdir = mkdir, rename, rename, unlink, unlink, rmdir
         os.symlink, os.open, os.write, os.close, os.chmod, os.utime, os.link = symlink, os_open, write, close, chmod, utime, link
         os.truncate = truncate
@@ -482,7 +506,8 @@ class Tracer:
                 return ints.pop(0)
             return 4242 + len(t.trace) % 60000
         _r.randint = randint
-        mounts = [os.fsdecode(self.sb.to_real(m)) for m in self.world.get("mounts", [])]
+        # what the mount listing shows: the canonical mount points, or the world's own spellings of them (trailing '/')
+        mounts = [os.fsdecode(self.sb.to_real(m)) for m in (self.world.get("mountTable") or self.world.get("mounts", []))]
         import trashcli.fstab.mount_points_listing as mpl
         mpl.os_mount_points = lambda: iter(list(mounts))
         # shutil caches function availability; make the fd-based rmtree use our wrappers (it looks os.* up at call time)
